@@ -1,5 +1,6 @@
 import Nsq.Gen.ToolsToFileFn
 import Nsq.Model.ToFileName
+import Nsq.Model.ToFileDisc
 /-!
 Tie of the file-name model (`Nsq.Model.ToFileName`) to apps/nsq_to_file/file_logger.go by
 *translation*: `tools/go2lean` (kind `strfunc`) re-translates `computeFilenameFormat` and
@@ -16,6 +17,7 @@ private theorem ite_ok {c : Prop} [Decidable c] (a b : Str) :
     (if c then (Except.ok a : Except Str Str) else .ok b) = .ok (if c then a else b) := by
   split <;> rfl
 
+set_option linter.unusedSimpArgs false in
 theorem computeFilenameFormat_fn_eq (o : Opts) (topic : Str) (hostname : Except Str Str) (pid : Str) :
     Nsq.Gen.ToolsToFileFn.computeFilenameFormat hostname o.hostIdentifier o.filenameFormat o.gzip
       o.rotateSize o.rotateInterval o.workDir o.outputDir topic pid
@@ -34,5 +36,12 @@ theorem computeFilenameFormat_fn_eq (o : Opts) (topic : Str) (hostname : Except 
 
 theorem currentFilename_fn_eq (filenameFormat datetime : Str) :
     Nsq.Gen.ToolsToFileFn.currentFilename datetime filenameFormat = currentFilename filenameFormat datetime := rfl
+
+/-- `TopicDiscoverer.isTopicAllowed`: empty pattern allows everything, a pattern that does not compile
+allows nothing, otherwise the regexp decides -/
+theorem isTopicAllowed_fn_eq (pattern : Str) (matched : Except Str Bool) :
+    Nsq.Gen.ToolsToFileFn.isTopicAllowed pattern matched = Nsq.Model.ToFileDisc.isTopicAllowed pattern matched := by
+  unfold Nsq.Gen.ToolsToFileFn.isTopicAllowed Nsq.Model.ToFileDisc.isTopicAllowed
+  by_cases hp : pattern = [] <;> cases matched <;> simp [hp]
 
 end Nsq.Tie.ToolsToFileFn
